@@ -525,3 +525,16 @@ Proof.
   unfold in_header in Hh. destruct (attr_of s) as [a'|] eqn:E; [|destruct Ha].
   destruct Ha as [<-|[]]. split; [exact Hh|]. exists r, s. repeat split; assumption.
 Qed.
+
+Lemma is_header_in l : is_header l = true <-> in_of_loc l = "header".
+Proof. destruct l; simpl; split; intro H; try reflexivity; discriminate. Qed.
+
+Lemma scheme_in_stripped L reqs r s a :
+  (forall s1 s2, In s1 (flat_map r_schemes reqs) -> In s2 (flat_map r_schemes reqs) -> s_name s1 = s_name s2 -> s1 = s2) ->
+  In r reqs -> In s (r_schemes r) -> attr_of s = Some a ->
+  (scheme_in L s = "header" <-> In a (strip_fields L reqs)).
+Proof.
+  intros Hu Hr Hs Ha. unfold scheme_in. rewrite Ha. rewrite <- is_header_in. split.
+  - intro H. exact (strip_fields_complete L reqs r s a Hu Hr Hs Ha H).
+  - intro H. apply strip_fields_sound in H. apply H.
+Qed.
